@@ -7,13 +7,27 @@ Import ListNotations.
 Local Open Scope Z_scope.
 
 (* ------------------------------------------------------------ string codec *)
+(* a python str the writer can encode and the store keeps whole: Unicode scalar
+   values (no surrogates), no NUL character (numpy/h5py drop trailing NULs of a
+   fixed-width item) *)
+Definition ustr (s : pystr) : Prop :=
+  Forall (fun c => 0 < c < 1114112 /\ ~ (55296 <= c < 57344)) s.
 Definition ascii_str (s : pystr) : Prop := Forall (fun c => 0 < c < 128) s.
+Lemma ascii_ustr s : ascii_str s -> ustr s.
+Proof. apply Forall_impl. intros c H. lia. Qed.
 
-Lemma utf8_ascii s : ascii_str s -> utf8 s = s.
+Lemma utf8_1_nonzero c : 0 < c -> Forall (fun b => b <> 0) (utf8_1 c).
 Proof.
-  induction 1 as [|c s Hc _ IH]; [reflexivity|].
-  unfold utf8 in *. simpl. rewrite IH. unfold utf8_1.
-  destruct (c <? 128) eqn:E; [reflexivity|]. apply Z.ltb_ge in E. lia.
+  intros H. unfold utf8_1.
+  destruct (c <? 128) eqn:E1; [repeat constructor; lia|].
+  destruct (c <? 2048) eqn:E2; [|destruct (c <? 65536) eqn:E3];
+    apply Z.ltb_ge in E1; repeat constructor;
+    try (pose proof (Z.div_pos c 64 ltac:(lia) ltac:(lia));
+         pose proof (Z.div_pos c 4096 ltac:(lia) ltac:(lia));
+         pose proof (Z.div_pos c 262144 ltac:(lia) ltac:(lia));
+         pose proof (Z.mod_pos_bound c 64 ltac:(lia));
+         pose proof (Z.mod_pos_bound (c / 64) 64 ltac:(lia));
+         pose proof (Z.mod_pos_bound (c / 4096) 64 ltac:(lia)); lia).
 Qed.
 
 Lemma strip_nul_nonzero s : Forall (fun c => c <> 0) s -> strip_nul s = s.
@@ -25,16 +39,133 @@ Qed.
 Lemma firstn_S_length {A} (l : list A) : firstn (S (List.length l)) l = l.
 Proof. apply firstn_all2. lia. Qed.
 
-(* a str value made of ASCII characters (no NUL) is read back unchanged *)
-Theorem str_roundtrip_ascii s : ascii_str s -> latin1 (str_stored s) = s.
+(* the stored payload is the whole UTF-8 encoding *)
+Lemma str_stored_utf8 s : ustr s -> str_stored s = utf8 s.
 Proof.
-  intros H. unfold latin1, str_stored. rewrite (utf8_ascii s H), firstn_S_length.
-  apply strip_nul_nonzero. eapply Forall_impl; [|exact H]. simpl. intros; lia.
+  intros H. unfold str_stored. rewrite firstn_S_length. apply strip_nul_nonzero.
+  unfold utf8. induction H as [|c s Hc _ IH]; [constructor|]. simpl.
+  apply Forall_app. split; [apply utf8_1_nonzero; lia|exact IH].
 Qed.
 
-(* ... and "µm" (U+00B5 m) is not: UTF-8 written, truncated to len+1 bytes, latin-1 read *)
-Theorem str_roundtrip_nonascii_refuted : exists s : pystr, latin1 (str_stored s) <> s.
-Proof. exists [181; 109]. vm_compute. discriminate. Qed.
+Lemma utf8_dec_cons b0 r : utf8_dec (b0 :: r) =
+      if b0 <? 128 then option_map (cons b0) (utf8_dec r)
+      else if b0 <? 194 then None
+      else if b0 <? 224 then
+        match r with
+        | b1 :: r1 =>
+            if cont b1 then option_map (cons ((b0 - 192) * 64 + (b1 - 128))) (utf8_dec r1) else None
+        | _ => None
+        end
+      else if b0 <? 240 then
+        match r with
+        | b1 :: b2 :: r2 =>
+            let c := (b0 - 224) * 4096 + (b1 - 128) * 64 + (b2 - 128) in
+            if cont b1 && cont b2 && (2048 <=? c) && negb ((55296 <=? c) && (c <? 57344))
+            then option_map (cons c) (utf8_dec r2) else None
+        | _ => None
+        end
+      else if b0 <? 245 then
+        match r with
+        | b1 :: b2 :: b3 :: r3 =>
+            let c := (b0 - 240) * 262144 + (b1 - 128) * 4096 + (b2 - 128) * 64 + (b3 - 128) in
+            if cont b1 && cont b2 && cont b3 && (65536 <=? c) && (c <? 1114112)
+            then option_map (cons c) (utf8_dec r3) else None
+        | _ => None
+        end
+      else None.
+Proof. reflexivity. Qed.
+
+(* python's strict decoder inverts the encoder, one code point at a time *)
+Lemma utf8_dec_1 c rest : 0 <= c < 1114112 -> ~ (55296 <= c < 57344) ->
+  utf8_dec (utf8_1 c ++ rest) = option_map (cons c) (utf8_dec rest).
+Proof.
+  intros Hc Hs. unfold utf8_1.
+  destruct (c <? 128) eqn:E1.
+  { cbn [List.app]. rewrite utf8_dec_cons, E1. reflexivity. }
+  apply Z.ltb_ge in E1.
+  destruct (c <? 2048) eqn:E2.
+  { apply Z.ltb_lt in E2. cbn [List.app]. rewrite utf8_dec_cons. unfold cont.
+    assert (A : 2 <= c / 64 < 32) by (split; [apply Z.div_le_lower_bound|apply Z.div_lt_upper_bound]; lia).
+    pose proof (Z.mod_pos_bound c 64 ltac:(lia)) as B.
+    replace (192 + c / 64 <? 128) with false by (symmetry; apply Z.ltb_ge; lia).
+    replace (192 + c / 64 <? 194) with false by (symmetry; apply Z.ltb_ge; lia).
+    replace (192 + c / 64 <? 224) with true by (symmetry; apply Z.ltb_lt; lia).
+    replace (128 <=? 128 + c mod 64) with true by (symmetry; apply Z.leb_le; lia).
+    replace (128 + c mod 64 <? 192) with true by (symmetry; apply Z.ltb_lt; lia).
+    cbv iota. cbn [andb]. replace ((192 + c / 64 - 192) * 64 + (128 + c mod 64 - 128)) with c; [reflexivity|].
+    pose proof (Z.div_mod c 64 ltac:(lia)). lia. }
+  apply Z.ltb_ge in E2.
+  destruct (c <? 65536) eqn:E3.
+  { apply Z.ltb_lt in E3. cbn [List.app]. rewrite utf8_dec_cons. unfold cont.
+    assert (A : 0 <= c / 4096 < 16) by (split; [apply Z.div_pos|apply Z.div_lt_upper_bound]; lia).
+    pose proof (Z.mod_pos_bound c 64 ltac:(lia)) as B.
+    pose proof (Z.mod_pos_bound (c / 64) 64 ltac:(lia)) as B2.
+    assert (D : c = c / 4096 * 4096 + (c / 64) mod 64 * 64 + c mod 64).
+    { pose proof (Z.div_mod c 64 ltac:(lia)). pose proof (Z.div_mod (c / 64) 64 ltac:(lia)).
+      rewrite Z.div_div in H0 by lia. change (64 * 64) with 4096 in H0. lia. }
+    replace (224 + c / 4096 <? 128) with false by (symmetry; apply Z.ltb_ge; lia).
+    replace (224 + c / 4096 <? 194) with false by (symmetry; apply Z.ltb_ge; lia).
+    replace (224 + c / 4096 <? 224) with false by (symmetry; apply Z.ltb_ge; lia).
+    replace (224 + c / 4096 <? 240) with true by (symmetry; apply Z.ltb_lt; lia).
+    replace (128 <=? 128 + (c / 64) mod 64) with true by (symmetry; apply Z.leb_le; lia).
+    replace (128 + (c / 64) mod 64 <? 192) with true by (symmetry; apply Z.ltb_lt; lia).
+    replace (128 <=? 128 + c mod 64) with true by (symmetry; apply Z.leb_le; lia).
+    replace (128 + c mod 64 <? 192) with true by (symmetry; apply Z.ltb_lt; lia).
+    cbv iota zeta. cbn [andb].
+    replace ((224 + c / 4096 - 224) * 4096 + (128 + (c / 64) mod 64 - 128) * 64 + (128 + c mod 64 - 128)) with c by lia.
+    replace (2048 <=? c) with true by (symmetry; apply Z.leb_le; lia).
+    replace ((55296 <=? c) && (c <? 57344)) with false; [reflexivity|].
+    symmetry. apply andb_false_iff. destruct (Z_lt_dec c 55296); [left; apply Z.leb_gt; lia|right; apply Z.ltb_ge; lia]. }
+  apply Z.ltb_ge in E3.
+  cbn [List.app]. rewrite utf8_dec_cons. unfold cont.
+  assert (A : 0 <= c / 262144 < 5) by (split; [apply Z.div_pos|apply Z.div_lt_upper_bound]; lia).
+  pose proof (Z.mod_pos_bound c 64 ltac:(lia)) as B.
+  pose proof (Z.mod_pos_bound (c / 64) 64 ltac:(lia)) as B2.
+  pose proof (Z.mod_pos_bound (c / 4096) 64 ltac:(lia)) as B3.
+  assert (D : c = c / 262144 * 262144 + (c / 4096) mod 64 * 4096 + (c / 64) mod 64 * 64 + c mod 64).
+  { pose proof (Z.div_mod c 64 ltac:(lia)). pose proof (Z.div_mod (c / 64) 64 ltac:(lia)).
+    pose proof (Z.div_mod (c / 4096) 64 ltac:(lia)).
+    rewrite Z.div_div in H0 by lia. change (64 * 64) with 4096 in H0.
+    rewrite Z.div_div in H1 by lia. change (4096 * 64) with 262144 in H1. lia. }
+  replace (240 + c / 262144 <? 128) with false by (symmetry; apply Z.ltb_ge; lia).
+  replace (240 + c / 262144 <? 194) with false by (symmetry; apply Z.ltb_ge; lia).
+  replace (240 + c / 262144 <? 224) with false by (symmetry; apply Z.ltb_ge; lia).
+  replace (240 + c / 262144 <? 240) with false by (symmetry; apply Z.ltb_ge; lia).
+  replace (240 + c / 262144 <? 245) with true by (symmetry; apply Z.ltb_lt; lia).
+  replace (128 <=? 128 + (c / 4096) mod 64) with true by (symmetry; apply Z.leb_le; lia).
+  replace (128 + (c / 4096) mod 64 <? 192) with true by (symmetry; apply Z.ltb_lt; lia).
+  replace (128 <=? 128 + (c / 64) mod 64) with true by (symmetry; apply Z.leb_le; lia).
+  replace (128 + (c / 64) mod 64 <? 192) with true by (symmetry; apply Z.ltb_lt; lia).
+  replace (128 <=? 128 + c mod 64) with true by (symmetry; apply Z.leb_le; lia).
+  replace (128 + c mod 64 <? 192) with true by (symmetry; apply Z.ltb_lt; lia).
+  cbv iota zeta. cbn [andb].
+  replace ((240 + c / 262144 - 240) * 262144 + (128 + (c / 4096) mod 64 - 128) * 4096
+           + (128 + (c / 64) mod 64 - 128) * 64 + (128 + c mod 64 - 128)) with c by lia.
+  replace (65536 <=? c) with true by (symmetry; apply Z.leb_le; lia).
+  replace (c <? 1114112) with true by (symmetry; apply Z.ltb_lt; lia).
+  reflexivity.
+Qed.
+
+Lemma utf8_dec_utf8 s : ustr s -> utf8_dec (utf8 s) = Some s.
+Proof.
+  unfold utf8. induction 1 as [|c s Hc _ IH]; [reflexivity|]. simpl.
+  rewrite utf8_dec_1 by lia. rewrite IH. reflexivity.
+Qed.
+
+(* every str value (Unicode scalar values, no NUL) is read back unchanged *)
+Theorem str_roundtrip s : ustr s -> decode_str (str_stored s) = s.
+Proof. intros H. unfold decode_str. now rewrite (str_stored_utf8 s H), (utf8_dec_utf8 s H). Qed.
+Corollary str_roundtrip_ascii s : ascii_str s -> decode_str (str_stored s) = s.
+Proof. intros H. apply str_roundtrip, ascii_ustr, H. Qed.
+(* the regression witnesses of the repaired defect: "µm" and a string with two
+   non-ASCII characters (which the old width, counted in characters, truncated) *)
+Example str_roundtrip_micro : decode_str (str_stored [181; 109]) = [181; 109].
+Proof. reflexivity. Qed.
+Example str_roundtrip_two_nonascii : decode_str (str_stored [945; 946; 8323]) = [945; 946; 8323].
+Proof. reflexivity. Qed.
+(* bytes that are not UTF-8 (files of other writers) are read as latin-1, as before *)
+Lemma decode_str_fallback b : utf8_dec b = None -> decode_str b = latin1 b.
+Proof. intros H. unfold decode_str. now rewrite H. Qed.
 
 (* ------------------------------------------------------------- decimal ids *)
 Lemma to_int_not_nil z : Z.to_int z <> Pos Nil /\ Z.to_int z <> Neg Nil.
@@ -207,30 +338,82 @@ Section pv_ind2.
 End pv_ind2.
 
 (* generic round trip of the store: reading what the writer wrote gives the
-   "expected reading" rd, for every None-free python value (nested dicts of
-   strings, scalars and arrays of any shape) *)
-Lemma dict2h5_PD (l : list (string * pv T)) :
-  forallb (fun kv => none_free (snd kv)) l = true ->
-  dict2h5 (PD l) = HG (map (fun kv => (fst kv, dict2h5 (snd kv))) l).
+   "expected reading" rd, for EVERY python value (nested dicts of strings,
+   scalars, arrays of any shape and None items, which are left out) *)
+Lemma flat_map_map {A B C} (f : A -> list B) (g : B -> C) l :
+  map g (flat_map f l) = flat_map (fun x => map g (f x)) l.
+Proof. induction l as [|a l IH]; simpl; [reflexivity|]. now rewrite map_app, IH. Qed.
+Lemma flat_map_ext_in {A B} (f g : A -> list B) l :
+  (forall x, In x l -> f x = g x) -> flat_map f l = flat_map g l.
 Proof.
-  induction l as [|[k x] l IH]; [reflexivity|]. intros H. simpl in H. apply andb_prop in H.
-  destruct H as [Hx Hl]. specialize (IH Hl). injection IH as IH.
-  destruct x; try discriminate; simpl; f_equal; f_equal; exact IH.
+  induction l as [|a l IH]; intros H; simpl; [reflexivity|].
+  rewrite (H a) by now left. rewrite IH; [reflexivity|]. intros; apply H; now right.
 Qed.
 
-Theorem store_roundtrip (v : pv T) : none_free v = true -> h52dict (dict2h5 v) = rd v.
+Theorem store_roundtrip (v : pv T) : h52dict (dict2h5 v) = rd v.
 Proof.
-  induction v as [l IH|s|dt z|dt x| |a] using pv_ind2; intros Hnf; try reflexivity; try discriminate.
-  simpl in Hnf. rewrite (dict2h5_PD l Hnf). simpl. f_equal. f_equal. rewrite map_map. simpl.
-  apply map_ext_in. intros [k x] Hin. simpl. f_equal.
-  rewrite Forall_forall in IH. apply (IH (k, x) Hin).
-  rewrite forallb_forall in Hnf. apply (Hnf (k, x) Hin).
+  induction v as [l IH|s|dt z|dt x| |a] using pv_ind2; try reflexivity.
+  simpl. f_equal. f_equal. rewrite flat_map_map.
+  apply flat_map_ext_in. intros [k x] Hin.
+  rewrite Forall_forall in IH. specialize (IH (k, x) Hin). cbn [fst snd] in *.
+  destruct x; cbn [map fst snd]; try reflexivity; now rewrite IH.
 Qed.
 
-(* the writer's `break` on a value it cannot write: everything after a None in
-   the same dict is silently missing from the file *)
-Theorem none_drops_rest : forall (k k' : string) (v : pv T),
-  dict2h5 (PD [(k, PN); (k', v)]) = HG [].
+(* an item the writer cannot write (None) is skipped; the items after it are written *)
+Theorem none_skipped : forall (k : string) (l : list (string * pv T)),
+  dict2h5 (PD ((k, PN) :: l)) = dict2h5 (PD l).
 Proof. reflexivity. Qed.
+
+(* the items of the expected reading of a dict *)
+Definition rd_items (l : list (string * pv T)) : list (string * rv T) :=
+  flat_map (fun kv : string * pv T => match snd kv with PN => [] | _ => [(fst kv, rd (snd kv))] end) l.
+Lemma rd_PD (l : list (string * pv T)) : rd (PD l) = RD (sortk (rd_items l)).
+Proof. reflexivity. Qed.
+
+(* a dict without None items (at its top level) is read item by item *)
+Definition not_PN (v : pv T) : bool := match v with PN => false | _ => true end.
+Lemma rd_items_nn (l : list (string * pv T)) :
+  forallb (fun kv => not_PN (snd kv)) l = true ->
+  rd_items l = map (fun kv => (fst kv, rd (snd kv))) l.
+Proof.
+  unfold rd_items. induction l as [|[k x] l IH]; [reflexivity|]. simpl. intros H. apply andb_prop in H. destruct H as [Hx Hl].
+  rewrite (IH Hl). destruct x; try reflexivity. discriminate.
+Qed.
+Lemma rd_PD_nn (l : list (string * pv T)) :
+  forallb (fun kv => not_PN (snd kv)) l = true ->
+  rd (PD l) = RD (sortk (map (fun kv => (fst kv, rd (snd kv))) l)).
+Proof. intros H. rewrite rd_PD. now rewrite (rd_items_nn l H). Qed.
+
+(* what a key of the python dict maps to after the round trip: None items are
+   absent, every other item is read with rd *)
+Lemma rd_items_keys k (l : list (string * pv T)) : In k (map fst (rd_items l)) -> In k (map fst l).
+Proof.
+  unfold rd_items. induction l as [|[k' x] l IH]; simpl; [tauto|]. rewrite map_app, in_app_iff. intros [H|H].
+  - left. destruct x; simpl in H; tauto.
+  - right. auto.
+Qed.
+Lemma rd_items_nodup (l : list (string * pv T)) : NoDup (map fst l) -> NoDup (map fst (rd_items l)).
+Proof.
+  induction l as [|[k x] l IH]; simpl; intros H; [constructor|]. inversion H; subst.
+  change (rd_items ((k, x) :: l)) with ((match x with PN => [] | _ => [(k, rd x)] end) ++ rd_items l).
+  assert (G : NoDup (k :: map fst (rd_items l))).
+  { constructor; [|auto]. intros Hin. apply H2. now apply rd_items_keys. }
+  destruct x; simpl; auto; now inversion G.
+Qed.
+Lemma lookup_rd_items k (l : list (string * pv T)) : NoDup (map fst l) ->
+  lookup k (rd_items l) = match lookup k l with Some PN => None | Some v => Some (rd v) | None => None end.
+Proof.
+  induction l as [|[k' x] l IH]; simpl; intros H; [reflexivity|]. inversion H; subst.
+  change (rd_items ((k', x) :: l)) with ((match x with PN => [] | _ => [(k', rd x)] end) ++ rd_items l).
+  destruct (String.eqb k k') eqn:E.
+  - apply String.eqb_eq in E. subst k'.
+    assert (N : lookup k (rd_items l) = None).
+    { apply lookup_none. intros Hin. apply H2. now apply rd_items_keys. }
+    destruct x; simpl; rewrite ?String.eqb_refl; auto.
+  - rewrite <- (IH H3). destruct x; simpl; rewrite ?E; reflexivity.
+Qed.
+Lemma lookup_rd k (l : list (string * pv T)) : NoDup (map fst l) ->
+  lookup k (sortk (rd_items l)) = match lookup k l with Some PN => None | Some v => Some (rd v) | None => None end.
+Proof. intros H. rewrite lookup_sortk by (now apply rd_items_nodup). now apply lookup_rd_items. Qed.
 
 End StoreP.
